@@ -1,4 +1,103 @@
-"""C12 - Model.copy (cobra/core/model.py): SKELETON (development)"""
+"""C12 - Model.copy (cobra/core/model.py), proved over its REAL source for models of ANY size.
+
+Documented: "Provide a partial 'deepcopy' of the Model.  All the Metabolite, Gene, and Reaction objects are created anew but in a
+faster fashion than deepcopy."  Property C12: the copy has the same content, its reactions / metabolites / genes / groups are
+distinct objects pointing at the copy, and afterwards no edit of one model is observable in the other - i.e. the copy SHARES no
+mutable object with the original.  Contract key: `Model.copy` (KEYS); hook table: HOOKS; closed lemma: lemmas().
+
+THE __dict__ LOOPS.  `for attr in self.__dict__`, `for attr, value in metabolite.__dict__.items()` (and gene / reaction / group) run over
+the attribute NAMES of the object.  ATTRS[cls] is derived MECHANICALLY at load time, on every run, from the real source (`ast` over
+$VERIF_REPO/src/cobra/core: the `self.<name> = ...` assignments of the __init__ methods along the base chain Object / Species / ...,
+minus the names the classes define as properties: `kind`, `tolerance` go through a setter and are no instance attributes); the lists
+agree with `vars(cls())` of the running library (checked by hand, 5 classes).  A name without a declared kind / specification class
+stops the module from loading (a new attribute in the source has to be classified).  The `getattr` hook gives `obj.__dict__` the
+meaning RECORD OVER EXACTLY THESE NAMES (value of a name = the attribute of a materialised object / the heap field of a symbolic
+one), so that the loops unroll entry by entry (pyvc.loops.unroll_record); `obj.__dict__[name]` reads the record, `obj.__dict__[name]
+= v` writes the attribute / heap field directly (no property setter, as in Python).  ASSUMPTION: instances have no other attributes.
+
+SHAPE.  `self` is a MATERIALISED model whose attributes are exactly ATTRS["Model"] (four DictLists, context stack, compartments
+dictionary, notes / annotation / solver as opaque references, tolerance, identifier, name).  Metabolites, genes, reactions, groups
+are symbolic references whose attributes are heap fields; set-valued fields (`_reaction`, `_genes`, `_members`, the KEY SET of
+`_metabolites`) are modelled BY VALUE (arrays Ref -> Bool; coefficients: ghost map mc_stoich[r][m]); storing such a field by reference
+(aliasing) is outside that model and makes the case undecided (Unsupported), never proved.  Every other attribute is an opaque
+reference (`ref:dict`, `ref:Any`, `ref:GPR`), an identifier or an extended real (bounds).
+ALLOCATION.  Uninterpreted stamp BIRTH(x) and a ghost clock: every allocation (constructor, copy, deepcopy) returns a reference r with
+BIRTH(r) = clock and advances the clock; CLOCK0 = the clock at entry.  "x existed at entry" = BIRTH(x) < CLOCK0 (stated in the
+precondition for the model and the members of its four lists); "x was allocated during the call" = BIRTH(x) >= CLOCK0.
+
+PROVED (case `any`, 1 path, 8 hand invariants: loops 1 metabolites, 3 genes, 5 reactions, 7 stoichiometry, 8 groups, 10 groups again,
+11 members, 12 update_variable_bounds; loops 0, 2, 4, 6, 9 are the unrolled __dict__ loops):
+ (1) the value returned is the new model object; its four DictLists, `_contexts` and `_compartments` are objects that did not exist at
+     entry; each of the four lists is well formed, has the length of the original's list, and its j-th element is an object ALLOCATED
+     DURING THE CALL (hence different from every object that existed at entry), not None, of the class of the list, with the
+     identifier of the original's j-th element, pointing at the NEW model (`_model`);
+ (2) cross-references are rebuilt inside the copy: y is a key of the j-th reaction of the copy  <=>  y is the member of the copy's
+     metabolites at the index of a key of the original's j-th reaction - with the same coefficient; likewise its `_genes` and the
+     copy's genes; the `_reaction` set of the p-th metabolite / gene of the copy holds x  <=>  x is the q-th reaction of the copy and
+     the original's q-th reaction has the original's p-th metabolite / gene; the members of the q-th group of the copy are exactly
+     newof(m) for the members m of the original's q-th group (newof: the element of the copy's list, chosen by the class of m,
+     at the index of m in the original's list; both directions);
+ (3) per-object attributes: `notes`, `_annotation` of every member and of the model are deep copies allocated during the call
+     (DC(new) == old, BIRTH >= CLOCK0: the repair e3e549c - by reference is a failed obligation, mutant M2 / M12); the rule object
+     `_gpr` of a reaction is an object allocated during the call with the same gene names; every other attribute (identifier, name,
+     formula, compartment, charge, bounds, subsystem, kind, ...) has the original's value or is copy() of it; the compartments
+     dictionary is a new dictionary with the same content; identifier and name of the model are the original's;
+ (4) frame: for EVERY field f of ATTRS and every object x that existed at entry f[x] is as at entry (also the coefficient map and the
+     solver-variable bounds of the original's reactions); the original model object, its lists, its `_contexts`, its compartments
+     are untouched (engine frame: none of them is in `modifies`); the copy's `_contexts` is a new EMPTY list on return, and at the
+     call new_reaction.update_genes_from_gpr() the copy's context stack is an empty list that is NOT the original's (obliged at the
+     call site: the defect repaired by e389e4c - mutant M1); the solver is deepcopy(self.solver) (a new object), the tolerance
+     setter is called exactly ONCE, with self._tolerance, on the model that already holds that solver (e3eb7c0 - mutant M7); after
+     the last loop the two solver variables of every reaction of the copy encode its bounds (range lemma RangeOK of c01_lp, by the
+     PROVED contract of Reaction.update_variable_bounds applied at the call site; fdf97f9 - mutant M8).
+
+PRECONDITIONS (stated).  The model and the members of its four lists existed at entry, are not None and carry their class tag; the
+four lists are well formed; the keys of a reaction's stoichiometry are members of model.metabolites; the genes of a reaction are exactly
+the members of model.genes whose identifier is a name of its rule, and every name of the rule has a gene in the model (C02 / C08
+invariant); the members of a group are metabolites / reactions / genes / groups found in the model's lists; reactions have valid
+bounds (lb <= ub, lb < +inf, ub > -inf) and different reactions have different solver variables (as for Model.__setstate__).
+ASSUMED (trusted, listed in props/C12.py).
+  * allocation: Model() returns a new object with new (empty) containers; Metabolite() / Gene(None) / Reaction() / Group(id) return a
+    new object of that class with no model, empty cross-reference containers and new notes / annotation dictionaries; copy(x) of an
+    object reference returns a NEW top-level object r (CP(r) == x), of a string / number x itself; deepcopy(x) returns a new object
+    graph r (DC(r) == x); none of them writes an existing object or raises (the `except Exception: copy(self.solver)` fallback for
+    Cplex is NOT covered); a copy / deep copy of a rule object has the same gene names (rule_names) and a body iff the source has;
+  * new_reaction.update_genes_from_gpr(): NOT assumed - the contract PROVED in c02_update_genes (case in_model:no_context; stated for a
+    materialised reaction) is applied to a temporary materialisation of the receiver (`_update_genes_summary`): its precondition is
+    obliged; obliged in addition: the receiver points at the new model, has no genes yet, every name of its rule has a gene in
+    new.genes, the new model's context stack is an empty list that is not the original's; from its post-condition SEVEN call-site
+    lemmas are obliged (no gene created; identifiers, model pointers and the index of new.genes as before; the receiver's gene set
+    = the new model's genes named by its rule; each of them lists it; nothing else changed) and execution continues in the state
+    these lemmas describe (the representation of new.genes before the call - same list, same index - with `_genes` / `_reaction`
+    characterised by the proved formulas).  What that contract itself assumes (GPR.genes = ghost rule_names, Gene(id) allocation)
+    is listed with it;
+  * new_group.add_members(list): `self._members.update(list)`, ASSUMED summary: union with the elements of the list;
+  * the tolerance setter writes solver configuration and self._tolerance only (as in misc_small); Object.annotation getter / setter
+    and Group.members getter are executed from their real source; DictList operations by their C15 contracts; after
+    new.<list>.append(x) the explicit form of the index (closed lemma append-index of c02_update_genes, re-proved under C12 by
+    lemmas()) is assumed; isinstance on a group member = the uninterpreted class tag of c02_groups.
+NOT proved here: that a deep copy has the CONTENT of its source (notes, annotations, the solver problem, the optimum): bounded driver.
+Engine: NO change of pyvc (the empty list display assigned to new._contexts is given the element kind of a context stack by the\nsetattr hook).
+MUTANTS (scratch copy of /repo/src, cobra/core/model.py; every one is NOT discharged; obligation that fails / goes unknown):
+  M1  pre-repair e389e4c (`"_contexts"` not in do_not_copy_by_ref, no early `new._contexts = []`)
+      -> call:update_genes_from_gpr/own-empty-context-stack
+  M2  metabolite notes / annotation by reference (`new_met.__dict__[attr] = value`, pre-repair e3e549c) -> loop#1/inv-preserve.21
+  M3  `new_gene._model = self` (wrong variable) -> loop#3/inv-preserve.27
+  M4  `new_reaction._metabolites[metabolite] = stoic` (the original's metabolite as key) -> loop#7/inv-preserve.45, .46
+  M5  `new_met._reaction.add(reaction)` (wrong variable) -> loop#7/inv-preserve.47
+  M6  `new_reaction.update_genes_from_gpr()` skipped -> loop#5/inv-preserve.41, .42
+  M7  `new.tolerance = self._tolerance` removed (pre-repair e3eb7c0) -> exit post.12
+  M8  the update_variable_bounds loop removed (pre-repair fdf97f9) -> exit post.68
+  M9  group member `new_object = member` (reaction branch: the original's object) -> loop#11/inv-preserve.7~2, .8~2
+  M10 `new._compartments = self._compartments` (shared dictionary) -> exit post.1
+  M11 `new._solver = self.solver` (shared solver) -> exit post.8, .9
+  M12 reaction notes / annotation `copy(value)` instead of `deepcopy(value)` (shallow: the nested values stay shared) -> loop#7/inv-init.44
+  M13 `new.reactions.append(new_reaction)` skipped -> loop#7/inv-init.2, .4, .5, .45, .47-.49
+  M14 `new_group.add_members(new_objects)` skipped -> loop#10/inv-preserve.50
+  M15 final `new._contexts = self._contexts` -> exit post.1
+  (removing `"_genes"` / `"_reaction"` from a do_not_copy_by_ref set stores a set-valued field by reference: the case is UNDECIDED
+  (Unsupported: aliasing is outside the by-value model), never proved)
+"""
 import ast
 import os
 import z3
@@ -120,7 +219,17 @@ TAGS = GR.TAGS
 CoefMap = z3.ArraySort(Ref, z3.ArraySort(Ref, z3.RealSort()))
 SV_ENTRY = z3.Const("mc_stoich_entry", CoefMap)
 IdSet = z3.ArraySort(Id, z3.BoolSort())
-NAMES = z3.Function("mc_rule_names", Ref, IdSet)   # the gene names of a rule object (what GPR.genes returns), as a function of the object
+
+
+def has_name(eng, st, g, k):
+    """k is a gene name of the rule object g (vocabulary of c02_update_genes: ghost rule_names, ASSUMED contract of the GPR.genes
+    getter; a rule without a body has no names)"""
+    return z3.And(eng.heap_arr(st, "body")[g] != NULL, z3.Select(U.rule_names(g), k))
+
+
+def same_names(eng, st, g1, g0):
+    body = eng.heap_arr(st, "body")
+    return z3.And(U.rule_names(g1) == U.rule_names(g0), (body[g1] != NULL) == (body[g0] != NULL))
 
 
 def sval(st):
@@ -304,7 +413,7 @@ def call_abstract_hook(eng, st, f, pos, kw):
             st, r = alloc_ref(st, x.cls, what)
             st = st.assume((DC if what == "deepcopy" else CP)(r.t) == x.t)
             if x.cls == "GPR":
-                st = st.assume(NAMES(r.t) == NAMES(x.t))
+                st = st.assume(same_names(eng, st, r.t, x.t))
             return [("ok", st, r)]
         if what == "copy" and isinstance(x, (VReal, VStr, VInt, VBool, VNone, VConc)):
             return [("ok", st, x)]
@@ -312,6 +421,7 @@ def call_abstract_hook(eng, st, f, pos, kw):
     return None
 
 
+APPLY_PROVED_CONTRACT = True      # False: the summary of update_genes_from_gpr is ASSUMED instead of obliged (development switch)
 LISTS = (("metabolites", "Metabolite"), ("genes", "Gene"), ("reactions", "Reaction"), ("groups", "Group"))
 
 
@@ -327,6 +437,11 @@ def setattr_hook(eng, st, v, name, val):
         if name in dict(LISTS) and isinstance(val, VObj) and val.cls == "DictList":
             # the copy's DictLists hold objects of the class of the original's lists (C15's generic result builder says `Object`)
             return [("ok", st.updobj(val.oid, ekind="ref:" + dict(LISTS)[name]).updobj(v.oid, **{"attr:" + name: val}), NONE)]
+        if name == "_contexts" and isinstance(val, VObj) and val.kind == "list" and z3.is_int_value(z3.simplify(st.objs[val.oid]["len"])) \
+                and z3.simplify(st.objs[val.oid]["len"]).as_long() == 0:
+            # the empty list display becomes a list of context managers (the element kind C03's contracts expect)
+            st2 = st.updobj(val.oid, ekind="ref:HistoryManager", elem=z3.K(I_, NULL))
+            return [("ok", st2.updobj(v.oid, **{"attr:_contexts": val}), NONE)]
         if name == "tolerance":
             # ASSUMED (as Model.tolerance@setter in misc_small): writes the tolerances of the solver configuration and self._tolerance;
             # touches no cobra object.  Recorded with its argument.
@@ -354,10 +469,15 @@ def call_method_hook(eng, st, recv, name, pos, kw):
 
 
 def _update_genes_summary(eng, st, recv):
-    """new_reaction.update_genes_from_gpr(): ASSUMED summary (the contract proved in c02_update_genes is stated for a materialised
-    reaction; here its consequence for a reaction c that points at the new model, has an EMPTY gene set, and whose rule names all
-    have a gene in new.genes - all three OBLIGED at the call): afterwards c._genes is exactly the set of the new model's genes whose
-    identifier is a name of c's rule, each of them lists c, nothing else changes (no gene is created, no model pointer written)"""
+    """new_reaction.update_genes_from_gpr() by the contract PROVED in c02_update_genes (case in_model:no_context), which is stated for a
+    MATERIALISED reaction: it is applied to a temporary materialisation of the receiver (identity = the reference, `_model` = the new
+    model, `_gpr` = the heap field), its precondition is obliged.  OBLIGED in addition at the call: the receiver points at the new
+    model, has an EMPTY gene set, every name of its rule has a gene in new.genes, and the new model's context stack is an empty list
+    that is not the original's.  From the contract's post-condition the SUMMARY below is then obliged as call-site lemmas (no gene
+    was created: new.genes, its index, every identifier and model pointer are as before; the receiver's gene set is exactly the
+    set of the new model's genes whose identifier is a name of its rule; each of them lists it; no other entry of a gene set or a
+    `_reaction` set changed) and execution continues in the state the summary describes (the entry representation of new.genes, with
+    only `_genes` / `_reaction` replaced by arrays characterised by the proved formulas)."""
     new = _new(st)
     c = recv.t
     E = Env({}, st, eng=eng)
@@ -366,7 +486,7 @@ def _update_genes_summary(eng, st, recv):
     ng, eg = L(st, gl)
     dg, vg = Dv(st, gl)
     k = qv("uk", Id)
-    names = NAMES(gpr[c])
+    names = lambda kk: has_name(eng, st, gpr[c], kk)  # noqa
     eng.oblige(st, z3.And(c != NULL, mo[c] == ident_of(new.oid)), "call:update_genes_from_gpr/receiver-in-new-model", kind="callpre")
     # the model the receiver points at has NO open context and its context stack is not the original's (else the callee would
     # register undo functions for the copy in a context of the original: the defect repaired by e389e4c)
@@ -374,17 +494,49 @@ def _update_genes_summary(eng, st, recv):
     own = isinstance(ctx, VObj) and ctx.oid != ctx0.oid
     eng.oblige(st, z3.And(z3.BoolVal(bool(own)), st.objs[ctx.oid]["len"] == 0) if own else z3.BoolVal(False),
                "call:update_genes_from_gpr/own-empty-context-stack", kind="callpre")
-    eng.oblige(st, G[c] == z3.K(Ref, z3.BoolVal(False)), "call:update_genes_from_gpr/no-genes-yet", kind="callpre")
+    no_genes = G[c] == z3.K(Ref, z3.BoolVal(False))
+    all_named = FA([k], z3.Implies(names(k), z3.Select(dg, k)), patterns=[z3.Select(U.rule_names(gpr[c]), k)])
+    eng.oblige(st, no_genes, "call:update_genes_from_gpr/no-genes-yet", kind="callpre")
     eng.oblige(st, WF(E, st, gl), "call:update_genes_from_gpr/genes-well-formed", kind="callpre")
-    eng.oblige(st, FA([k], z3.Implies(names[k], z3.Select(dg, k)), patterns=[names[k]]),
-               "call:update_genes_from_gpr/every-name-has-a-gene", kind="callpre")
+    eng.oblige(st, all_named, "call:update_genes_from_gpr/every-name-has-a-gene", kind="callpre")
+    st = st.assume(no_genes, all_named)
+    g, x, j = qv("ug", Ref), qv("ux", Ref), qv("uj")
+    member = z3.And(z3.Select(dg, ids[g]), eg[vg[ids[g]]] == g, names(ids[g]))
+
+    def summary(G1, R1):
+        return [("genes-of-receiver", FA([g], G1[c][g] == member, patterns=[G1[c][g]])),
+                ("other-gene-sets", FA([x], z3.Implies(x != c, G1[x] == G[x]), patterns=[G1[x]])),
+                ("reaction-sets", FA([g, x], R1[g][x] == z3.Or(R[g][x], z3.And(x == c, member)), patterns=[R1[g][x]]))]
+    if APPLY_PROVED_CONTRACT:
+        con = eng.reg.get("Reaction.update_genes_from_gpr")
+        st1, tmp = alloc_obj(st, "Reaction", {"attr:_model": new, "attr:_gpr": VRef(z3.Select(gpr, c), "GPR")})
+        st1 = st1.assume(ident_of(tmp.oid) == c)
+        if not eng.feasible(st1):
+            raise Unsupported("materialising the receiver of update_genes_from_gpr contradicts what is known")
+        n_ok = 0
+        for kk, s2, v in eng.apply_contract(st1, con, [tmp], {}):
+            if kk != "ok":
+                raise Unsupported("update_genes_from_gpr: an exceptional outcome of the applied contract")
+            n_ok += 1
+            n2, e2 = L(s2, gl)
+            d2, v2 = Dv(s2, gl)
+            ids2, mo2 = eng.heap_arr(s2, "_id"), eng.heap_arr(s2, "_model")
+            G2, R2 = eng.heap_arr(s2, "_genes"), eng.heap_arr(s2, "_reaction")
+            kq = qv("uq", Id)
+            # term introduction for z3: a gene created by the callee would sit at index ng
+            tail = z3.And(ng < n2, has_name(eng, s2, gpr[c], ids2[e2[ng]]), z3.Not(z3.Select(dg, ids2[e2[ng]])))
+            lem = [("no-gene-created:witness", z3.Or(n2 == ng, z3.Not(tail))),
+                   ("no-gene-created", z3.And(n2 == ng, FA([j], z3.Implies(z3.And(0 <= j, j < ng), e2[j] == eg[j]), patterns=[e2[j]]))),
+                   ("identifiers-and-model-pointers", z3.And(FA([g], ids2[g] == ids[g], patterns=[ids2[g]]), FA([g], mo2[g] == mo[g], patterns=[mo2[g]]))),
+                   ("index", FA([kq], z3.And(z3.Select(d2, kq) == z3.Select(dg, kq), z3.Implies(z3.Select(dg, kq), v2[kq] == vg[kq])),
+                                patterns=[z3.Select(d2, kq), z3.Select(dg, kq)]))] + summary(G2, R2)
+            for nm_, f in lem:
+                eng.oblige(s2, f, f"call:update_genes_from_gpr/lemma:{nm_}", kind="side")
+                s2 = s2.assume(f)
+        if n_ok != 1:
+            raise Unsupported("update_genes_from_gpr: the applied contract has not exactly one outcome")
     G1, R1 = fresh("uG", G.sort()), fresh("uR", R.sort())
-    g, x = qv("ug", Ref), qv("ux", Ref)
-    member = z3.And(z3.Select(dg, ids[g]), eg[vg[ids[g]]] == g, names[ids[g]])
-    st2 = st.setheap("_genes", G1).setheap("_reaction", R1).assume(
-        FA([g], G1[c][g] == member, patterns=[G1[c][g]]),
-        FA([x], z3.Implies(x != c, G1[x] == G[x]), patterns=[G1[x]]),
-        FA([g, x], R1[g][x] == z3.Or(R[g][x], z3.And(x == c, member)), patterns=[R1[g][x]]))
+    st2 = st.setheap("_genes", G1).setheap("_reaction", R1).assume(*[f for _, f in summary(G1, R1)])
     return [("ok", st2.setghost("mc_calls", calls(st) + (("update_genes_from_gpr", recv),)), NONE)]
 
 
@@ -468,7 +620,7 @@ def _attr_fact(V, cls, f, c, o):
     if f in DEEP:
         return [DC(a1) == a0, BIRTH(a1) >= CLOCK0]
     if f in NEWOBJ:
-        return [z3.Or(CP(a1) == a0, DC(a1) == a0), BIRTH(a1) >= CLOCK0, NAMES(a1) == NAMES(a0)]
+        return [z3.Or(CP(a1) == a0, DC(a1) == a0), BIRTH(a1) >= CLOCK0, same_names(V.E.eng, V.st, a1, a0)]
     if f in XREF:
         return []
     if kind.startswith("ref:"):
@@ -598,8 +750,9 @@ def _pre(E):
     # C02 invariant of the original: the keys of a reaction's stoichiometry are members of model.metabolites; its genes are exactly
     # the members of model.genes whose identifier is a name of its rule, and every name of the rule has a gene in the model
     cs.append(FA([j, y], z3.Implies(z3.And(rng, Mt0[r][y]), V.mem0("metabolites", y)), patterns=[Mt0[r][y]]))
-    cs.append(FA([j, y], z3.Implies(rng, G0[r][y] == z3.And(V.mem0("genes", y), NAMES(gpr0[r])[ids[y]])), patterns=[G0[r][y]]))
-    cs.append(FA([j, k], z3.Implies(z3.And(rng, NAMES(gpr0[r])[k]), z3.Select(dg, k)), patterns=[NAMES(gpr0[r])[k]]))
+    cs.append(FA([j, y], z3.Implies(rng, G0[r][y] == z3.And(V.mem0("genes", y), has_name(E.eng, s0, gpr0[r], ids[y]))), patterns=[G0[r][y]]))
+    cs.append(FA([j, k], z3.Implies(z3.And(rng, has_name(E.eng, s0, gpr0[r], k)), z3.Select(dg, k)),
+                 patterns=[z3.Select(U.rule_names(gpr0[r]), k)]))
     # the members of the model's groups are objects of the model: a metabolite / reaction / gene / group found in the model's list
     (nG, eG), _, _ = V.o["groups"]
     Mb0 = V.h0("_members")
@@ -824,4 +977,5 @@ KEYS = [KEY]
 
 def lemmas():
     """the closed lemmas this module relies on at call sites: append-index (c02_update_genes)"""
-    return [o for o in U.lemmas() if "append-index" in o.name]
+    from pyvc.engine import Obl
+    return [Obl("C12/lemma/append-index", o.hyps, o.goal, "lemma") for o in U.lemmas() if "append-index" in o.name]
